@@ -76,7 +76,7 @@ func MergeSearchResults(lim uint16, firstAttr string, cmpInt bool, sets [][]clie
 					switch firstAttr {
 					default:
 						cmpAttr = strings.Compare(sets[i][0].Attributes[0], sets[minInd][0].Attributes[0])
-					case object.FilterParentID, object.FilterFirstSplitObject:
+					case object.FilterParentID, object.FilterFirstSplitObject, object.AttributeAssociatedObject:
 						if err = curOID.DecodeString(sets[i][0].Attributes[0]); err == nil {
 							err = minOID.DecodeString(sets[minInd][0].Attributes[0])
 						}
